@@ -365,9 +365,11 @@ class MainWiring:
     def run(self, ctx, f, args, kwargs, I):
         saved = dict(E.SUMMARIES)
         M = main_mod()
-        wallet = Mock("wallet")
+        fail = I.fail
+        wallet = Mock("wallet", raises={"generate": RuntimeError} if fail == "generate" else
+                      ({"export_wallet": OSError, "pprint": OSError} if fail == "output" else {}))
         I.wallet = wallet
-        parser = Mock("parser", raises=dict(exit=SystemExit))
+        parser = Mock("parser", raises=dict(exit=SystemExit, error=SystemExit))
 
         def s_parse_args(c, a, k):
             c.effects.append(("parse_args", tuple(a), dict(k)))
@@ -383,6 +385,8 @@ class MainWiring:
                 kw = dict(zip(names, a))
                 kw.update(k)
                 c.effects.append(("construct." + name, (), kw))
+                if fail == "construct":
+                    raise PyRaise(ValueError, "malformed secret")      # exceptional postcondition of every from_* constructor
                 return wallet
             return s
 
@@ -410,7 +414,8 @@ class MainWiring:
                       mnemonic_len=Leaf("args.mnemonic_len"), master_xprv=Leaf("args.master_xprv"),
                       mnemonic=Leaf("args.mnemonic"), seed_hex=Leaf("args.seed_hex"), entropy_hex=Leaf("args.entropy_hex"))
         args = B.ctx.new_obj(argparse.Namespace, **fields)
-        return [], {}, NS(args=args, f=fields, cmd=cmd)
+        fail = [None, "construct", "generate", "output"][B.case("failure", 4)] if cmd is not None else None
+        return [], {}, NS(args=args, f=fields, cmd=cmd, fail=fail)
 
     def post(self, c, I, out):
         f = I.f
@@ -419,6 +424,18 @@ class MainWiring:
         if I.cmd is None:
             yield "ensures.no_command.help_then_exit1", out.raised_a(SystemExit) and names == ["parse_args", "parser.print_help", "parser.exit"] \
                 and eff[-1][2].get("status", (eff[-1][1] or [None])[0]) == 1
+            return
+        if I.fail is not None:
+            # a failure while building, generating or writing is REPORTED: the exception reaches the interpreter
+            # (exit status 1) or main exits with an explicit non-zero status; nothing is emitted afterwards
+            exits = [e for e in eff if e[0] in ("parser.exit", "parser.error")]
+            nonzero = bool(exits) and (exits[-1][0] == "parser.error" or
+                                       (lambda st: isinstance(st, int) and not isinstance(st, bool) and st != 0)(exits[-1][2].get("status", (list(exits[-1][1]) + [0])[0])))
+            want_cls = dict(construct=ValueError, generate=RuntimeError, output=OSError)[I.fail]
+            yield f"raises.failure_in_{I.fail}_is_reported", (out.raised_a(want_cls) and not exits) or (out.raised_a(SystemExit) and nonzero)
+            first_fail = {"construct": "construct.", "generate": "wallet.generate", "output": ("wallet.pprint", "wallet.export_wallet")}[I.fail]
+            idx = [i for i, e in enumerate(eff) if e[0].startswith(first_fail)]
+            yield f"ensures.no_output_after_failure_in_{I.fail}", bool(idx) and not any(e[0] in ("wallet.pprint", "wallet.export_wallet") for e in eff[idx[0] + 1:])
             return
         yield "ensures.returns", out.returned
         if not out.returned:
@@ -489,7 +506,8 @@ class ParseArgsWiring:
 
         def m_parser(c, a, k):
             c.effects.append(("ArgumentParser", tuple(a), dict(k)))
-            return Mock("parser", results=dict(add_subparsers=add_subparsers))
+            return Mock("parser", results=dict(add_subparsers=add_subparsers,
+                                               parse_known_args=lambda c2, a2, k2: (Mock("parser.parse_known_args()[0]"), c2.alloc(HList([])))))
         m_parser.always = True
         try:
             MM.NATIVE_MODELS[key] = m_parser
